@@ -17,7 +17,8 @@ func verifTempDir() string {
 }
 
 func verifAttrValue() interface{} {
-	switch verifChoice("valkind", 5) {
+	// int64(7) and float64(7): equal as numbers, different as attribute values
+	switch verifChoice("valkind", verifBound("valkinds", 5)) {
 	case 0:
 		return "x"
 	case 1:
@@ -25,7 +26,13 @@ func verifAttrValue() interface{} {
 	case 2:
 		return true
 	case 3:
+		return float64(7)
+	case 5:
 		return float64(1.5)
+	case 6:
+		return int64(1<<53 + 1)
+	case 7:
+		return int64(1 << 53)
 	}
 	return nil // delete the key
 }
